@@ -31,7 +31,7 @@ PCall == {"argsArray", "argsString", "argsNull", "argsMissing",
 PClasses(m) ==
   CASE m = "tools/call" -> PCommon \cup PKeyed \cup PCall \cup {"keyEmpty"}
     [] m = "prompts/get" -> PCommon \cup PKeyed \cup {"argsArray", "h:error", "h:nil"}
-    [] m = "resources/read" -> PCommon \cup PKeyed \cup {"argsArray", "argsString", "h:error", "h:nil"}
+    [] m = "resources/read" -> PCommon \cup PKeyed \cup {"argsArray", "argsString", "h:error", "h:nil", "h:multi", "h:nilItem"}
     [] m = "initialize" -> PCommon \cup {"keyMissing", "keyNumber", "keyNull"}
     [] m \in {"resources/subscribe", "resources/unsubscribe"} -> PCommon \cup PKeyed
     [] m = "completion/complete" -> PCommon \cup {"keyMissing", "keyNumber", "keyNull", "unknownEntry"}
@@ -57,8 +57,8 @@ Expect(m, pc) ==
          [] pc \in {"argsArray", "argsString"} -> {"rpc:-32602"}
          [] pc \in {"argsNull", "argsMissing"} -> {"result"}
          [] pc = "h:error" -> {"rpc:-32603"}
-         [] pc = "h:isError" -> {"result"}
-         [] pc \in {"h:nil", "h:noContent"} -> {"result", "rpc:-32603"}
+         [] pc \in {"h:isError", "h:multi"} -> {"result"}
+         [] pc \in {"h:nil", "h:noContent", "h:nilItem"} -> {"result", "rpc:-32603"}   \* a served result still has to fit MsgGrammar
          [] pc = "h:unencodable" -> {"rpc:-32603"}
 
 IdKinds == {"int", "str"}
